@@ -286,7 +286,7 @@ def shard_e1(n):
 
 def shard_stencil(rname):
     res = core.Res()
-    for n in range(1, 9):
+    for n in list(range(1, 9)) + [9, 13, 16, 33]:
         for a in (1.0, -1.5):
             for L, x0 in ((float(n), 0.0), (1.0, 0.0), (0.3, -4.0)):
                 if n >= 3:
